@@ -29,6 +29,11 @@ def decl_specs(tier):
             specs.append({'names': [c, 'i2'], 'wrapper': w, 'shared': {}})
         specs.append({'names': ['i1', c], 'wrapper': 'b', 'shared': {'endianness': 'little'}})
     specs.append({'described': True, 'names': []})
+    # another class of the program borrows the fields of the class under test (Ref(K, embed=True)) before K is used
+    for c in alphabet.COMPONENTS:
+        specs.append({'names': [c, 'i1'], 'wrapper': 'a', 'embedder': True})
+    for c in ('r1', 'rs', 'sr', 'or', 'rvec', 'rbag'):
+        specs.append({'names': [c], 'wrapper': 'b', 'embedder': True})
     for c in ('i1', 'i3', 'dn', 'm0', 'b35', 'sn', 'su', 'sr', 'o1', 'r1', 'rs', 'sdn'):
         specs.append({'names': [c], 'wrapper': 'd'})
     return specs
@@ -209,6 +214,14 @@ def check_decl(dc, st, tier, only=None):
     twin['name'] = dc.P['name'] + 'Twin'
     tw = dc.world.module(ir.pkt_src(twin), header=mk.HEADER + 'from %s import *\n' % dc.mod.__name__)
     setattr(dc.mod, twin['name'], getattr(tw, twin['name']))
+    if dc.spec.get('embedder'):
+        for i, q in enumerate(ir.subpackets(dc.P)):
+            try:
+                dc.world.module(mk.class_src('Emb%d' % i, ['head = Int(1)', 'body = Ref(%s, embed=True)' % q['name'], 'tail = Int(1)']),
+                                header=mk.HEADER + 'from %s import *\n' % dc.mod.__name__)
+                st.inc('embedders')
+            except Exception:
+                st.inc('embedder_not_definable')      # embedding is not what this property is about
     if only is not None:
         if only.get('inplace') == 'defaults':
             d = refsem.defaults(dc.P)
@@ -244,7 +257,8 @@ def run(tier):
     st = ea.run(MODULE, tier)
     cov = ea.coverage(st, 'every declaration of the alphabet incl. all positioned/aligned/Em/class-align ones; for every distinct accepted value: '
                           'parsed==parsed, constructed==parsed, every single-leaf mutation at any depth is unequal, twin class / None / non-packets unequal, '
-                          'repr is a str, nothing raises; two equal packets (default-constructed / parsed from the same bytes) with one leaf of the second changed IN PLACE must become unequal while the first stays as it was; states = distinct (declaration, value)', {'mutations': st.n.get('mutations', 0), 'inplace_mutations': st.n.get('inplace_mutations', 0)})
+                          'repr is a str, nothing raises; two equal packets (default-constructed / parsed from the same bytes) with one leaf of the second changed IN PLACE must become unequal while the first stays as it was; one declaration per component with another class that embeds it (Ref(K, embed=True)) defined first; states = distinct (declaration, value)', {'mutations': st.n.get('mutations', 0), 'inplace_mutations': st.n.get('inplace_mutations', 0),
+                       'classes_embedding_the_class_under_test': st.n.get('embedders', 0), 'embedders_not_definable': st.n.get('embedder_not_definable', 0)})
     return {'stats': st, 'coverage': cov, 'assumptions': ['values of mutated copies are built with the constructor (no validation needed for ==)']}
 
 
